@@ -97,7 +97,11 @@ Fixpoint flagmism_from (i : nat) (cs : list (case * list (option oflags))) : lis
 Fixpoint viol13_from (i : nat) (cs : list (case * list (option oflags))) : list (nat * nat * nat) :=
   match cs with
   | [] => []
-  | (c, f) :: t => map (fun v => (i, fst v, snd v)) (dedup_viol (chk_C13 (cs_hist c) (cs_impl c) f)) ++ viol13_from (S i) t
+  | (c, f) :: t => map (fun v => (i, fst v, snd v))
+                       (dedup_viol (chk_C13 (cs_hist c) (cs_impl c) f ++
+                                    (* an error a constructor returned is the root of the verdict (never lost) *)
+                                    walk (fun _ _ _ ob => chk_fail_root (cfg_recover (cs_cfg c)) ob) 0 reg0 [] (cs_hist c) (cs_impl c)))
+                   ++ viol13_from (S i) t
   end.
 
 (* ---------- C05 graph level: the cycle detector itself ---------- *)
